@@ -29,6 +29,7 @@ class ExecCore:
         self.path_counter = 0
         self.dropped: List[str] = []
         self.notes: List[str] = []
+        self.contradictory_contracts: List[str] = []   # call sites where assuming a callee's postconditions made a feasible state infeasible
         self.getters_used: Dict[Tuple[str, str], str] = {}     # (class qualname, property) -> field, for getter obligations
         self.class_ids: Dict[str, int] = {q: i + 1 for i, q in enumerate(sorted(tree.classes))}
         self._field_table: Optional[Dict[str, Tuple[ClassInfo, Optional[ast.expr], Optional[ast.expr], FuncInfo]]] = None
